@@ -159,8 +159,9 @@ def load_witnesses(prop):
 
 def make_tree_copy(root):
     d = tempfile.mkdtemp(prefix="ovw.")
-    for sub in ("src", "include"):
-        shutil.copytree(os.path.join(root, sub), os.path.join(d, sub))
+    for sub in ("src", "include", "cfg"):
+        if os.path.isdir(os.path.join(root, sub)):
+            shutil.copytree(os.path.join(root, sub), os.path.join(d, sub))
     shutil.copy(os.path.join(root, "CMakeLists.txt"), os.path.join(d, "CMakeLists.txt"))
     return d
 
